@@ -409,6 +409,8 @@ def run_check(prop_id, tier, seed, n_override=None):
             json.dump(ev, f, indent=1, default=str)
     if violations:
         seen = set()
+        # one replay per root-cause bucket: the smallest failing case (shrunk ones first)
+        violations.sort(key=lambda v: len(json.dumps(v["case"], default=str)))
         for v in violations:
             if v["bucket"] in seen:
                 continue
